@@ -22,7 +22,7 @@ import Pog.Lemmas.SurfaceModule
                        ✗ the error message of an untagged operation names a class that does not exist
     grouping level (every operation list, every CPython case table `UInfo`)
       tag maps       : emitter and client visitor compute the same map, neither raises           (full)
-      every operation is in the group of each of its tags; exactly once ✗ (two tags, one key)    (partial)
+      every operation is in the group of each of its tags, exactly once, in no other group       (full; F45 repaired)
       each tag client is a property of APIClient (up to order)                                   (full)
       module files   : distinct groups never share a file for ASCII tags (full); ✗ non-ASCII
       mocks          : ✗ grouped by FIRST tag, RAW string: surfaces and MockAPIClient properties differ
@@ -210,23 +210,38 @@ theorem every_op_in_each_tag_client (u : UInfo) (ops : List TagOp) (op : TagOp) 
     ∃ g ∈ groupEndpoints u ops, g.key = normTagKey u t ∧ op.id ∈ g.ops :=
   Pog.every_op_present u ops op t hop ht
 
-/-- ✗ `… exactly once` is false when two tags of ONE operation share a normalised key.
-    Partial: distinct operation ids, and the tags of the operation have pairwise distinct keys. -/
-theorem every_op_exactly_once_partial (u : UInfo) (ops : List TagOp) (op : TagOp) (t : Str) (hop : op ∈ ops)
+/-- `every_op_exactly_once` at full strength over the tags (F45 repaired: an operation is appended once per normalised key):
+    however many spellings of a tag the operation carries, its id occurs exactly ONCE in the group of that tag.
+    (`hids`: the ids identify the operations - the method names of a document are pairwise distinct, `Pog.C07.method_names_distinct`.) -/
+theorem every_op_exactly_once (u : UInfo) (ops : List TagOp) (op : TagOp) (t : Str) (hop : op ∈ ops)
     (ht : t ∈ tagsOrDefault op) (hids : (ops.map (·.id)).Nodup)
-    (hkeys : ((tagsOrDefault op).map (normTagKey u)).Nodup)
     (g : TagGroup) (hg : g ∈ groupEndpoints u ops) (hk : g.key = normTagKey u t) :
     g.ops.count op.id = 1 :=
-  Pog.every_op_once u ops op t hop ht hids hkeys g hg hk
+  Pog.every_op_once u ops op t hop ht hids g hg hk
 
-example : (([⟨"a".toList, ["Users".toList, "admin-ops".toList]⟩, ⟨"b".toList, []⟩] : List TagOp).map (·.id)).Nodup ∧
-    ((tagsOrDefault ⟨"a".toList, ["Users".toList, "admin-ops".toList]⟩).map (normTagKey UInfo.ascii)).Nodup := by
+/-- … and it does not occur in the group of any key none of its tags normalises to. -/
+theorem op_in_no_other_tag_client (u : UInfo) (ops : List TagOp) (op : TagOp) (hop : op ∈ ops) (hids : (ops.map (·.id)).Nodup)
+    (g : TagGroup) (hg : g ∈ groupEndpoints u ops) (hk : g.key ∉ (tagsOrDefault op).map (normTagKey u)) :
+    op.id ∉ g.ops :=
+  Pog.op_absent_elsewhere u ops op hop hids g hg hk
+
+/-- The members of a group, exactly: the ids of the operations that carry a tag (or `default`) with the group's key, each once,
+    in document order - every operation list, no hypothesis. -/
+theorem group_members (u : UInfo) (ops : List TagOp) (g : TagGroup) (hg : g ∈ groupEndpoints u ops) :
+    g.ops = (ops.filter (hasKey u g.key)).map (·.id) :=
+  Pog.groupEndpoints_ops u ops g hg
+
+/-- The hypotheses are satisfiable by an operation that carries two spellings of one tag. -/
+example : (([⟨"a".toList, ["Users".toList, "users".toList, "admin-ops".toList]⟩, ⟨"b".toList, []⟩] : List TagOp).map (·.id)).Nodup ∧
+    "users".toList ∈ tagsOrDefault ⟨"a".toList, ["Users".toList, "users".toList, "admin-ops".toList]⟩ := by
   decide
 
-/-- ✗ witness: tags `Users` and `users` on the same operation: its method is emitted twice into `UsersClient`. -/
-theorem every_op_exactly_once_counterexample :
-    (groupEndpoints UInfo.ascii [⟨"a".toList, ["Users".toList, "users".toList]⟩]).map (·.ops) =
-      [["a".toList, "a".toList]] := by
+/-- The former witness of F45: tags `Users` and `users` on the same operation used to emit its method twice into `UsersClient`. -/
+theorem every_op_exactly_once_former_witness :
+    (groupEndpoints UInfo.ascii [⟨"a".toList, ["Users".toList, "users".toList]⟩]).map (·.ops) = [["a".toList]] ∧
+    groupEndpointsRaw UInfo.ascii [⟨"a".toList, ["Users".toList, "users".toList]⟩, ⟨"b".toList, ["x".toList, "USERS".toList]⟩]
+      = some [⟨"users".toList, "USERS".toList, "users".toList, "UsersClient".toList, ["a".toList, "b".toList]⟩,
+              ⟨"x".toList, "x".toList, "x".toList, "XClient".toList, ["b".toList]⟩] := by
   decide
 
 /-- **C07: each tag client is a property of `APIClient`**: the property names are, up to order
